@@ -3,7 +3,7 @@
    undo it. The RevertUpdate diffs and proofs of the implementation are checked by the correspondence
    (store inverse after every revert, proofs equal to the pre-block proofs, byte-identical re-apply). *)
 From Coq Require Import ZArith List Bool.
-From Sia Require Import Prim.Result Prim.Tok Policy.Model Ledger.Types Ledger.Mid Ledger.Validate Ledger.Apply Ledger.Proofs Ledger.Revert Ledger.Persist Ledger.RevertOk.
+From Sia Require Import Prim.Result Prim.Tok Policy.Model Ledger.Types Ledger.Mid Ledger.Validate Ledger.Apply Ledger.Proofs Ledger.Revert Ledger.Persist Ledger.RevertOk Ledger.RevertOk1.
 Import ListNotations.
 Open Scope Z_scope.
 
@@ -51,3 +51,11 @@ Theorem C06_revert_restores_accepted : forall H net vt pt se sd s b s' m,
   b_txns b = [] -> b_expiring b = [] -> revert_leaves s s' m b = s_leaves s.
 Proof. exact revert_restores_accepted. Qed.
 Print Assumptions C06_revert_restores_accepted.
+
+(* and for every accepted block of any era -- v1 transactions, v1 contracts revised, proven or expiring included (what a v1
+   lookup returns is what the diff holds already, or a supplement element that validateSupplement has compared with its
+   leaf) *)
+Theorem C06_revert_restores_any_accepted_block : forall H net vt pt se sd s b s' m,
+  validate_block H net vt pt se sd s b = Ok tt -> apply_block net s b = Ok (s', m) -> revert_leaves s s' m b = s_leaves s.
+Proof. exact revert_restores_any. Qed.
+Print Assumptions C06_revert_restores_any_accepted_block.
